@@ -246,7 +246,9 @@ for n in range(2, 6):
                 return 1
             body.__name__ = body.__qualname__ = "g%d" % i
             body.__module__ = "verif_closure_%d" % next(_ids)
-            comps.append(component(*[comps[j] for j in edges[i]])(body))
+            # up to four components: dependencies declared as one at-least-one group (what dr.add_dependency appends to); five: all required
+            decl = [[comps[j] for j in edges[i]]] if (n <= 4 and edges[i]) else [comps[j] for j in edges[i]]
+            comps.append(component(*decl)(body))
         target = comps[n - 1]
         got = dr.get_dependency_graph(target)
         reach, todo = set(), [n - 1]
@@ -266,4 +268,26 @@ for n in range(2, 6):
         for c, ds in want.items():
             if any(pos[d] > pos[c] for d in ds):
                 fail(violation="C01: the run order puts a component before one of its dependencies", edges=edges)
+        # the registry changes between two look-ups (a dependency is added to a component of the closure, as registering one more
+        # implementation of a spec does): the next closure of the same target has the new edge and whatever it makes reachable
+        if n <= 4:
+            missing = [(i, j) for i in sorted(reach) if edges[i] for j in range(i) if j not in edges[i]]
+            if missing:
+                i, j = missing[0]
+                dr.add_dependency(comps[i], comps[j])
+                edges[i].append(j)
+                reach2, todo = set(), [n - 1]
+                while todo:
+                    x = todo.pop()
+                    if x not in reach2:
+                        reach2.add(x)
+                        todo.extend(edges[x])
+                want2 = dict((comps[a], set(comps[b] for b in edges[a])) for a in reach2)
+                got2 = dr.get_dependency_graph(target)
+                closures += 1
+                if dict((c, set(d)) for c, d in got2.items()) != want2:
+                    fail(violation="C01: after a dependency was added to a component of an already computed closure, the dependency graph of the same "
+                                   "target misses the new edge (or what it makes reachable)", edges=edges, added=[i, j], target=n - 1,
+                         got=dict((comps.index(c), sorted(comps.index(d) for d in ds)) for c, ds in got2.items()),
+                         want=dict((comps.index(c), sorted(comps.index(d) for d in ds)) for c, ds in want2.items()))
 print(json.dumps({"ok": True, "max_components": N, "runs": runs, "closure_graphs": closures, "configurations": cfgs}))
